@@ -78,10 +78,14 @@ def run(tier, seed):
     # (the winter crop's seasons span the turn of the year: a call boundary after 1 January lies inside a season sown the year before)
     longs = [L.scenario("Maize", "SandyLoam", seed=seed + 50, seasons=2, irr={"method": 1, "kw": {"SMT": [60] * 4}}),
              L.scenario("Wheat", "Loam", seed=seed + 53, plant_md=(10, 15), year=2001, seasons=2),
+             # every irrigation strategy is sliced (the decision state - day counters, cumulated depth, the externally set depth - lives across calls)
+             L.scenario("Sorghum", "Loam", seed=seed + 54, seasons=2, irr={"method": 5, "kw": {"depth": 4, "MaxIrrSeason": 260}}),
+             L.scenario("Potato", "SandyLoam", seed=seed + 55, seasons=2, irr={"method": 2, "kw": {"IrrInterval": 6, "MaxIrr": 20}}, off_season=True),
+             L.scenario("Barley", "ClayLoam", seed=seed + 56, seasons=2, irr={"method": 3, "schedule": [["2001/05/01", 30], ["2001/06/10", 40], ["2002/05/05", 25], ["2002/06/20", 35]]}),
              L.scenario("WheatGDD", "Loam", seed=seed + 51, seasons=2, off_season=True, regime="warm"),
              L.scenario("Tomato", "Clay", seed=seed + 52, seasons=2, irr={"method": 4}, gw={"water_table": "Y", "dates": ["2001/04/20"], "values": [1.5]})]
-    nl = 70 if tier == "thorough" else 4
-    for sc in longs[: (4 if tier == "thorough" else 3)]:
+    nl = 40 if tier == "thorough" else 3
+    for sc in longs[: (7 if tier == "thorough" else 5)]:
         base = len(jobs)
         jobs.append({"kind": "plain", "scenario": sc})
         for j in range(nl):
